@@ -6,6 +6,8 @@ import (
 	"go/constant"
 	"go/token"
 	"go/types"
+	"regexp"
+	"strconv"
 	"strings"
 )
 
@@ -275,6 +277,11 @@ func (vc *VC) applyContract(st *State, call *ast.CallExpr, c *Contract, callee *
 		t := vc.evalSpecBoolIn(post, e.Expr)
 		st.assume(smtImp(guard, t))
 	}
+	for _, e := range c.Defines {
+		t := vc.evalSpecBoolIn(post, e.Expr)
+		st.assume(smtImp(guard, t))
+		vc.assumptions["ghost state is defined by: "+shortKey(c)+" defines "+e.Text] = true
+	}
 	return results
 }
 
@@ -365,6 +372,7 @@ func (vc *VC) intrinsic(st *State, call *ast.CallExpr, full string, sig *types.S
 				vc.declareFun("sqlverb", "(Int) Int")
 				st.assume(smtEq(app("sqlverb", r), fmt.Sprint(sqlVerbCode(constant.StringVal(tv.Value)))))
 				vc.fmtOf[r] = constant.StringVal(tv.Value)
+				vc.checkSQLTableArgs(st, call, constant.StringVal(tv.Value))
 			}
 			vc.assumptions["fmt.Sprintf: the number of `?` in the result is the sum over the format string and the string-typed arguments"] = true
 		}
@@ -745,6 +753,63 @@ func (vc *VC) initialSym(st *State, comp string) string {
 }
 
 // finishObligations attaches declarations/axioms to every obligation (after the run, when all are known).
+var sqlVerbRx = regexp.MustCompile(`%(\[(\d+)\])?[vdsq]`)
+
+// checkSQLTableArgs: in a constant SQL format the value substituted right after FROM / INTO / UPDATE / JOIN / TABLE
+// names a table: the argument must be a table-name constant or a call of a ...TableName function (obligation kind
+// `sqltable`, syntactic). Catches a column constant handed in where the table belongs.
+func (vc *VC) checkSQLTableArgs(st *State, call *ast.CallExpr, format string) {
+	if sqlVerbCode(format) == 0 || vc.inlineDepth > 0 {
+		return
+	}
+	next := 1
+	for _, m := range sqlVerbRx.FindAllStringSubmatchIndex(format, -1) {
+		argn := next
+		if m[4] >= 0 {
+			if n, err := strconv.Atoi(format[m[4]:m[5]]); err == nil {
+				argn = n
+			}
+		}
+		next = argn + 1
+		before := strings.TrimRight(format[:m[0]], " `\t\n(")
+		i := strings.LastIndexAny(before, " \t\n(")
+		word := strings.ToUpper(before[i+1:])
+		switch word {
+		case "FROM", "INTO", "UPDATE", "JOIN", "TABLE", "EXISTS":
+		default:
+			continue
+		}
+		if argn >= len(call.Args) {
+			continue
+		}
+		a := call.Args[argn]
+		name := ""
+		switch x := a.(type) {
+		case *ast.Ident:
+			name = x.Name
+		case *ast.SelectorExpr:
+			name = x.Sel.Name
+		case *ast.CallExpr:
+			if id := identOf(x.Fun); id != nil {
+				name = id.Name
+			}
+		}
+		ok := strings.HasSuffix(name, "TableName") || strings.HasSuffix(name, "Table") || strings.HasPrefix(name, "tableName") || strings.HasPrefix(name, "table")
+		if !ok {
+			// a local variable holding a table name: accept when it was built by a ...TableName call is not tracked;
+			// only package-level constants and calls are judged
+			if id, isId := a.(*ast.Ident); isId {
+				if _, isVar := vc.curInfo.ObjectOf(id).(*types.Var); isVar && !vc.isGlobal(vc.curInfo.ObjectOf(id).(*types.Var)) {
+					continue
+				}
+			}
+			vc.oblige(st, "sqltable", "", fmt.Sprintf("argument %d of the statement text (after %s) must name a table, got %s", argn, word, vc.nodeText(a)), a.Pos(), "false")
+		} else {
+			vc.oblige(st, "sqltable", "", fmt.Sprintf("argument %d of the statement text (after %s) names a table: %s", argn, word, vc.nodeText(a)), a.Pos(), "true")
+		}
+	}
+}
+
 // sqlVerbCode: the SQL statement kind a text starts with (0: none / not a constant word).
 func sqlVerbCode(s string) int {
 	w := strings.TrimLeft(s, " \t\n")
